@@ -20,7 +20,7 @@ structure Need where
 (per key for batch delete; source and destination for copy). `none` = not governed by bucket
 policy / ACL (CreateBucket: role check; ListBuckets: owner filter). -/
 def required : Op → Option (List Need)
-  | .createBucket .. | .listBuckets => none
+  | .createBucket .. | .listBuckets .. => none
   | .deleteBucket b => some [⟨b, .write, actDeleteBucket, []⟩]
   | .headBucket b => some [⟨b, .read, actListBucket, []⟩]
   | .putBucketPolicy b _ _ => some [⟨b, .write, actPutBucketPolicy, []⟩]
